@@ -360,3 +360,83 @@ func execC09(t *testing.T, c C09Case) (v Verdict) {
 }
 
 func TestC09(t *testing.T) { checkProp(t, "C09", "main", genC09, execC09) }
+
+// ---- C09 storm: calls starting at the very moment the read loop fails (no hook) --------------
+
+type C09Storm struct {
+	Callers    int  `json:"callers"`
+	Streams    bool `json:"streams"`
+	WriteFails bool `json:"write_fails"`
+	Ser        bool `json:"ser"`
+}
+
+func genC09Storm(t *rapid.T) C09Storm {
+	return C09Storm{Callers: rapid.SampledFrom([]int{8, 16, 32, 64}).Draw(t, "callers"), Streams: rapid.Bool().Draw(t, "streams"), WriteFails: rapid.IntRange(0, 3).Draw(t, "wf") == 0, Ser: rapid.Bool().Draw(t, "ser")}
+}
+
+func execC09Storm(t *testing.T, c C09Storm) (v Verdict) {
+	returned, succeeded := 0, 0
+	var mu sync.Mutex
+	res := kit.Bubble(t, func() {
+		tp := kit.NewTap()
+		l := kit.NewLink("c0", tp, c.Ser)
+		cc := goat.NewClientConn(l.A, "c0", kit.ServerName)
+		bg := context.Background()
+		start := make(chan struct{})
+		for i := 0; i < c.Callers; i++ {
+			i := i
+			go func() {
+				<-start
+				var err error
+				if c.Streams && i%2 == 1 {
+					var cs grpcClientStreamIface
+					cs, err = cc.NewStream(bg, kit.StreamDescFor(kit.KindBidi), kit.FullMethod("s"))
+					if err == nil {
+						_, err = kit.RecvBytes(cs)
+					}
+				} else {
+					_, err = kit.Invoke(bg, cc, "u", []byte{byte(i)})
+				}
+				mu.Lock()
+				returned++
+				if err == nil {
+					succeeded++
+				}
+				mu.Unlock()
+			}()
+		}
+		kit.Settle()
+		// the failure and the call starts happen in the same instant, with no quiescent point in between
+		go func() {
+			l.A.FailReads(nil)
+			if c.WriteFails {
+				l.A.FailWrites(nil)
+			}
+		}()
+		close(start)
+		kit.Settle()
+		mu.Lock()
+		r := returned
+		mu.Unlock()
+		if r != c.Callers {
+			v.failf("%d of %d calls started while the transport's read failed are still waiting for a response that can never arrive (nobody answers on this connection; write side writable=%v)", c.Callers-r, c.Callers, !c.WriteFails)
+		}
+		l.Close()
+		cc.Close()
+		kit.Settle()
+	})
+	if res.Panic != nil {
+		v.failf("panic: %v\n%s", res.Panic, res.Stack)
+	}
+	if succeeded > 0 {
+		v.failf("%d calls succeeded although no response was ever sent", succeeded)
+	}
+	v.Info = kit.CaseInfo{Labels: []string{"storm", fmt.Sprintf("storm.callers=%d", c.Callers)}, NonTrivial: true, Key: fmt.Sprintf("%+v", c), Sample: c}
+	return
+}
+
+type grpcClientStreamIface interface {
+	RecvMsg(any) error
+}
+
+func TestC09Storm(t *testing.T) { checkProp(t, "C09", "storm", genC09Storm, execC09Storm) }
